@@ -369,6 +369,8 @@ class Interp:
                 return self.ev(f["body"], {})
             raise Unsupported("path %s" % (n.get("def"),))
         if k == "ctor":
+            if n.get("adt") == "alloc::borrow::Cow" and len(n["args"]) == 1:
+                return self.ev(n["args"][0], env)          # Cow::Borrowed(x) / Cow::Owned(x) denote x
             return Enum(n.get("adt"), n.get("variant"), [self.ev(a, env) for a in n["args"]])
         if k == "struct":
             if n.get("variant") and n.get("adt") and self._is_enum(n["adt"]):
